@@ -10,7 +10,7 @@ CHECKS = {
    note="Trusts the reference models refasm/refparse/refx (bound to the maintainers' own expectations by the corpus conformance run inside this check (0 disagreements) and to the real code by agreeing on every enumerated program; any disagreement is triaged). Programs outside the reference's defined domain (value-dependent sizes, blanks splitting adjacent literal characters, strings/blocks in arguments) get no verdict and are counted. Iteration budget 30."),
  "C02": dict(level="model_checking", design="DESIGN.md §4 C02, §3.5",
    technique="bounded exhaustive enumeration of value-dependent programs x budgets x switches; certificate re-derivation of every claimed fixed point by the reference model",
-   text="Sixteen rule families with value-dependent encodings (assert cascades, typed widths, pc-relative also in a bank at a negative address, candidates of non-static width, constants whose size flips with a label, label-dependent layout directives, data in range only after shrinking, sub-rule operands, …) plus directed families (late-settling booleans, constants/labels as scope parents) x all item sequences up to a length x iteration budgets x the four optimisation-switch combinations, plus forward chains of length 0..12 (needing up to 14 passes) with and without an oscillator x budgets 1..30: every claimed success is certified by recomputing, from the assembler's own final symbol values and instruction sizes, each instruction's surviving matches, the unique smallest encoding, every data element and every label address; every failure must be clean. Nothing is predicted about which fixed point is found.",
+   text="Sixteen rule families with value-dependent encodings (assert cascades, typed widths, pc-relative also in a bank at a negative address, every family also in a bank at 2^64, candidates of non-static width, constants whose size flips with a label, label-dependent layout directives, data in range only after shrinking, sub-rule operands, …) plus directed families (late-settling booleans, constants/labels as scope parents, late zero operands behind a jump at small / wide / negative bank addresses) x all item sequences up to a length x iteration budgets x the four optimisation-switch combinations, plus forward chains of length 0..12 (needing up to 14 passes) with and without an oscillator x budgets 1..30: every claimed success is certified by recomputing, from the assembler's own final symbol values and instruction sizes, each instruction's surviving matches, the unique smallest encoding, every data element and every label address; every failure must be clean. Nothing is predicted about which fixed point is found.",
    note="Certificate uses the reference matcher/evaluator/layout (refasm) on the public result only (spans, bits, symbols output). States = distinct certified final states, transitions = passes executed (iterations_taken). Quick: sequences <=3, budgets {1,2,3,4,10}; thorough: <=4/5, budgets 1..30."),
  "C06": dict(level="model_checking", design="DESIGN.md §4 C06, §3.4",
    technique="bounded exhaustive enumeration of bank configurations x item sequences against a reference layout model plus invariants on the real spans",
